@@ -251,7 +251,7 @@ def run_scenario(sc, props):
                     if not feq(truth, be):
                         viol.append(('reported-energy-is-not-energy-of-constrained-point', 'step %d best %r reported %r true %r' % (k, best, be, truth)))
         # ---- C01: every member's stored energy is the objective at that member
-        if 'C01' in props and full and sc['tight'] is not True:
+        if 'C01' in props and full and sc['tight'] is not True and sc['clip'] is None:
             pop = [list(map(float, p)) for p in s.population]
             en = [float(np.asarray(e).ravel()[0]) for e in s.popEnergy]
             if sc['solver'] == 'Powell':
